@@ -478,6 +478,15 @@ fn lex_line(line: &str, bang_comment: bool) -> Vec<Tok> {
         match c {
             '%' => return out,
             '!' if bang_comment => return out,
+            // A carriage return (CRLF files) has category 5: it ends the line where it stands.
+            '\r' => {
+                match st {
+                    St::N => out.push(Tok::Par),
+                    St::M => out.push(Tok::Space),
+                    St::S => {}
+                }
+                return out;
+            }
             ' ' => {
                 if st == St::M {
                     out.push(Tok::Space);
@@ -839,6 +848,7 @@ fn gen_streams(rng: &mut Rng, with_faults: bool) -> StreamCase {
     let vocab = [
         "a", "b c", "{d", "e}", "", "f%x", "  g  ", "{", "}", "h}i", "j{k}l", "m!n", " ", "{o{p}", "q}}r",
         "s}t{u", "}{", "v}{w}x", "{y}}{z", "a}b{c{d", "e{f}g}h{", "}}", "{{", "i }j{ k", "%}{", "l!}{",
+        "m\r", "n o\r", "\r", "{p\r", "q}\rr", "s \r", "  \r",
     ];
     let nfiles = 1 + rng.below(4);
     let mut files = vec![];
